@@ -215,7 +215,8 @@ func (nm *Names) M(id string) string {
 		return id
 	}
 	if len(id) > 8 {
-		return fmt.Sprintf("#%x..%d", id[:8], len(id))
+		// first and last bytes: default ids are from||seqno, so the tail tells messages of one author apart
+		return fmt.Sprintf("#%x..%x", id[:4], id[len(id)-4:])
 	}
 	return fmt.Sprintf("#%x", id)
 }
